@@ -87,6 +87,8 @@ var __vals = [
   function () { var o = {}; o[Symbol.iterator] = function () { return { next: function () { return {}; } }; }; return o; },
   function () { return { type: "Buffer", data: [1, 2, 3] }; }, function () { return { type: "Buffer", data: { length: -5 } }; },
   function () { return Object.create(null); },
+  function () { var o = { a: 1 }; o["\ud800"] = "x"; o["b\udfff"] = "\ud800"; return o; },
+  function () { return [["\ud800", "\udc00"], ["a", "b"]]; },
   function () { return new Uint8Array(4); }, function () { return new Uint8Array(0); }, function () { return new ArrayBuffer(8); },
   function () { return new Float64Array(2); }, function () { return new DataView(new ArrayBuffer(4)); },
   function () { return new Uint16Array([1, 2, 3]).subarray(1); }, function () { return new Int8Array(new ArrayBuffer(16), 4, 8); },
@@ -441,12 +443,23 @@ func main() {
 	corpus := flag.String("corpus", "", "corpus file")
 	statsPath := flag.String("stats", "", "stats JSON")
 	list := flag.Bool("list", false, "print the discovered targets and exit")
+	showVal := flag.Int("showval", -1, "print the source of value factory N and exit")
 	timeout := flag.Duration("timeout", 20*time.Second, "per-call watchdog")
 	flag.Parse()
 	loop, run, names, nvals, classes := newLoop()
 	f := &fuzzer{loop: loop, run: run, names: names, nvals: nvals, classes: classes, st: hx.NewStats(), rng: hx.NewRng(*seed),
 		w: bufio.NewWriterSize(os.Stdout, 1<<20), timeout: *timeout}
 	defer f.w.Flush()
+	if *showVal >= 0 {
+		done := make(chan struct{})
+		loop.RunOnLoop(func(vm *goja.Runtime) {
+			v, _ := vm.RunString(fmt.Sprintf("String(__vals[%d])", *showVal))
+			fmt.Println(v)
+			close(done)
+		})
+		<-done
+		return
+	}
 	if *list {
 		for _, n := range names {
 			fmt.Fprintln(f.w, n)
